@@ -142,6 +142,8 @@ class ShapeEval(AxisEval):
             a, b = self.py(e.left), self.py(e.comparators[0])
             if isinstance(a, (int, float)) and isinstance(b, (int, float)):
                 return {ast.Eq: a == b, ast.NotEq: a != b, ast.Lt: a < b, ast.LtE: a <= b, ast.Gt: a > b, ast.GtE: a >= b}.get(type(op), None) if type(op) in (ast.Eq, ast.NotEq, ast.Lt, ast.LtE, ast.Gt, ast.GtE) else (self._unknown("comparison") if not isinstance(op, (ast.Is, ast.IsNot)) else ((a is b) == isinstance(op, ast.Is)))
+            if isinstance(a, str) and isinstance(b, str) and isinstance(op, (ast.Eq, ast.NotEq)):
+                return (a == b) == isinstance(op, ast.Eq)
             if isinstance(op, (ast.Lt, ast.LtE, ast.Gt, ast.GtE)) and (isinstance(a, (str, list, tuple)) or a is None) != (isinstance(b, (str, list, tuple)) or b is None):
                 raise RaisesExc("TypeError", e)
             if isinstance(op, (ast.Is, ast.IsNot)):
@@ -429,7 +431,7 @@ class ShapeEval(AxisEval):
         drop = {x % len(lay) for x in dims}
         keep = next((k.value for k in c.keywords if k.arg == "keepdim"), None)
         self.reduced.append((op, tuple(a for i, g in enumerate(lay) if i in drop for a in g)))
-        if keep is not None and const_number(keep):
+        if keep is not None and ((isinstance(keep, ast.Constant) and keep.value is True) or const_number(keep)):
             return tuple(() if i in drop else g for i, g in enumerate(lay))
         return tuple(g for i, g in enumerate(lay) if i not in drop)
 
